@@ -306,9 +306,9 @@ fn lattice_i() -> Vec<i64> {
 }
 
 pub fn run(ctx: &mut Ctx) {
-    let ubits: u32 = ctx.tier.pick(22, 28);
-    let sbits: u32 = ctx.tier.pick(21, 27);
-    let tail: &[u8] = ctx.tier.pick(&[0x00, 0x80, 0xff][..], &[0x00, 0x01, 0x7f, 0x80, 0xff][..]);
+    let ubits: u32 = ctx.tier.pick(23, 29);
+    let sbits: u32 = ctx.tier.pick(22, 28);
+    let tail: &[u8] = ctx.tier.pick(&[0x00, 0x7f, 0x80, 0xff][..], &[0x00, 0x01, 0x7f, 0x80, 0xff][..]);
     ctx.meta("rule", "cases: (a) every u64 below 2^ubits plus the lattice 2^j+{-2..2} (j=0..64) through as_vint, as_vint_with_length::<1..8>, is_vint, and read_vint of every encoding; (b) every i64 in (-2^sbits, 2^sbits) plus the signed lattice through as_signed_vint, as_signed_vint_with_length(1..8), read_signed_vint; (c) every byte slice of length 0-3, and for lengths 4-9 every slice with a free first byte and the remaining bytes from the tail alphabet, through read_vint and read_signed_vint. Oracle: RefCodec (u128 arithmetic). Non-trivial: values within 2 of a width boundary / slices with first byte 0 or 1 or that are proper prefixes.");
     ctx.meta("bounds", &format!("ubits={} sbits={} tail alphabet={} slice lengths 0..=9", ubits, sbits, hex(tail)));
     ctx.meta("assumptions", "64-bit target || non-first bytes of a VINT are only shifted and added, never branched on (data independence justifies the small tail alphabet for lengths >= 4) || overflow checks enabled in the checked build; the thorough tier repeats the run in a build without overflow checks");
